@@ -562,6 +562,27 @@ def generic_replay(ctx, path, hdir, test_re, prop, transcript):
     return 1 if differs else 0
 
 
+
+def crash_violation(ctx, transcript, out, prefix):
+    """the harness process died (a panic in a goroutine of the code under test): the ops of the last case are the replay.
+    Returns True when a violation was recorded."""
+    m = re.search(r"(panic: [^\n]*|fatal error: [^\n]*)", out)
+    path = "%s/%s" % (ctx.out, transcript)
+    if not m or "test timed out" in m.group(1) or not os.path.exists(path):
+        return False
+    cases = parse_cases(path)
+    if not cases:
+        return False
+    h, lines = cases[-1]
+    where = re.search(r"\n(github.com/Lumerin-protocol/proxy-router/internal/[^\n(]*)\([^\n]*\n\t(/repo/[^\s]*)", out[m.end():])
+    site = (where.group(2).replace("/repo/", "") if where else "?")
+    sig = "%s:process-crash-%s" % (prefix, re.sub(r"[^A-Za-z0-9]+", "-", site.split(":")[0].split("/")[-1]))
+    violation(ctx, sig, "the process died: %s at %s" % (m.group(1), site),
+              {"clause": "no input crashes the process", "case": h, "ops": [l for l in lines if l.startswith("> ")], "panic": m.group(1), "site": site,
+               "how_to_replay": "bin/check %s --replay <this file>" % ctx.pid})
+    return True
+
+
 def run_monitor(ctx, prop, transcript):
     """run `prvdrv monitor` over the implementation transcript; returns list of (case_header, complaint)"""
     impl = "%s/%s" % (ctx.out, transcript)
